@@ -121,7 +121,8 @@ JKey(f) == IF f.kind = "attr" THEN <<64>> \o f.key ELSE f.key
 ---------------------------------------------------------------------------
 \* value generators.  Strings: round-trippable pool (no leading/trailing XML
 \* whitespace - the deserializer is documented to trim) and hostile additions.
-StrRT == { <<196,162,196,166,196,167,196,188,196,190>>, <<97, 239, 187, 191, 98>>, <<59, 60>>, <<38, 59, 38>>, <<>>, <<97>>, <<60>>, <<38>>, <<34>>, <<39>>, <<97, 32, 98>>, <<195, 169>>, <<93, 93, 62>>, <<38, 97, 109, 112, 59>>, <<45, 45>> }
+\* (FORM FEED is not XML white space: a string that starts or ends with it is inside the documented domain)
+StrRT == { <<12, 112, 12>>, <<196,162,196,166,196,167,196,188,196,190>>, <<97, 239, 187, 191, 98>>, <<59, 60>>, <<38, 59, 38>>, <<>>, <<97>>, <<60>>, <<38>>, <<34>>, <<39>>, <<97, 32, 98>>, <<195, 169>>, <<93, 93, 62>>, <<38, 97, 109, 112, 59>>, <<45, 45>> }
 StrSmall == { <<>>, <<97>>, <<60>> }
 StrHostile == StrRT \cup { <<32>>, <<32, 97>>, <<10>>, <<0>>, <<62>>, <<60, 97, 62>> }
 \* items of space-separated lists: non-empty, no XML whitespace (src/de/mod.rs docs)
